@@ -2,7 +2,7 @@ use crate::base::ParamKey;
 use lru::{KeyRef, LruCache};
 use std::borrow::Borrow;
 use std::hash::Hash;
-use std::sync::{
+use crate::vsync::{
     atomic::{AtomicU64, Ordering},
     Arc, RwLock,
 };
